@@ -1,0 +1,194 @@
+//! Verification hooks. Compiled only with `--cfg hbs_lms_verif`.
+//!
+//! Thin wrappers that expose crate-internal functions to an external
+//! verification harness. They contain no logic of their own.
+extern crate std;
+
+use std::vec::Vec;
+
+use tinyvec::ArrayVec;
+
+use crate::{
+    constants::{
+        LmsLeafIdentifier, LmsTreeIdentifier, MAX_ALLOWED_HSS_LEVELS, MAX_HASH_SIZE,
+        MAX_HSS_PUBLIC_KEY_LENGTH, MAX_HSS_SIGNATURE_LENGTH, MAX_NUM_WINTERNITZ_CHAINS,
+        MAX_TREE_HEIGHT, MIN_WINTERNITZ_PARAMETER, REF_IMPL_MAX_PRIVATE_KEY_SIZE, TREE_HEIGHTS,
+        WINTERNITZ_PARAMETERS,
+    },
+    hasher::HashChain,
+    hss::{
+        definitions::HssPrivateKey,
+        reference_impl_private_key::{ReferenceImplPrivateKey, Seed},
+    },
+    lm_ots::{
+        self,
+        parameters::LmotsAlgorithm,
+        signing::{InMemoryLmotsSignature, LmotsSignature},
+    },
+    lms::definitions::LmsPrivateKey,
+    util::coef::coef,
+};
+
+/// (type id, w, p, ls, n) of an LM-OTS type code for hash `H`.
+pub fn lmots_parameter<H: HashChain>(lmots_type: u32) -> Option<(u32, u8, u16, u8, usize)> {
+    let p = LmotsAlgorithm::get_from_type::<H>(lmots_type)?;
+    Some((
+        p.get_type_id(),
+        p.get_winternitz(),
+        p.get_num_winternitz_chains(),
+        p.get_checksum_left_shift(),
+        p.get_hash_function_output_size(),
+    ))
+}
+
+/// `util::coef::coef`.
+pub fn coef_raw(byte_string: &[u8], i: u16, w: u8) -> u64 {
+    coef(byte_string, i, w)
+}
+
+/// `digest || checksum(digest)` as the signer/verifier compute it.
+pub fn lmots_append_checksum<H: HashChain>(digest: &[u8], lmots_type: u32) -> Option<Vec<u8>> {
+    let p = LmotsAlgorithm::get_from_type::<H>(lmots_type)?;
+    Some(p.append_checksum_to(digest).as_slice().to_vec())
+}
+
+/// The chain positions (message digits followed by checksum digits) used for `digest`.
+pub fn lmots_digits<H: HashChain>(digest: &[u8], lmots_type: u32) -> Option<Vec<u8>> {
+    let p = LmotsAlgorithm::get_from_type::<H>(lmots_type)?;
+    let with_checksum = p.append_checksum_to(digest);
+    Some(
+        (0..p.get_num_winternitz_chains())
+            .map(|i| coef(with_checksum.as_slice(), i, p.get_winternitz()) as u8)
+            .collect(),
+    )
+}
+
+fn seed_from<H: HashChain>(seed: &[u8]) -> Seed<H> {
+    let mut s = Seed::<H>::default();
+    s.as_mut_slice().copy_from_slice(seed);
+    s
+}
+
+/// LM-OTS public key K for (I, q, seed, type).
+pub fn lmots_public_key<H: HashChain>(
+    lms_tree_identifier: LmsTreeIdentifier,
+    lms_leaf_identifier: LmsLeafIdentifier,
+    seed: &[u8],
+    lmots_type: u32,
+) -> Option<Vec<u8>> {
+    let p = LmotsAlgorithm::get_from_type::<H>(lmots_type)?;
+    let sk = lm_ots::keygen::generate_private_key(
+        lms_tree_identifier,
+        lms_leaf_identifier,
+        seed_from::<H>(seed),
+        p,
+    );
+    Some(lm_ots::keygen::generate_public_key(&sk).key.as_slice().to_vec())
+}
+
+/// LM-OTS signature bytes for (I, q, seed, type, C, message).
+pub fn lmots_sign<H: HashChain>(
+    lms_tree_identifier: LmsTreeIdentifier,
+    lms_leaf_identifier: LmsLeafIdentifier,
+    seed: &[u8],
+    lmots_type: u32,
+    randomizer: &[u8],
+    message: &[u8],
+) -> Option<Vec<u8>> {
+    let p = LmotsAlgorithm::get_from_type::<H>(lmots_type)?;
+    let sk = lm_ots::keygen::generate_private_key(
+        lms_tree_identifier,
+        lms_leaf_identifier,
+        seed_from::<H>(seed),
+        p,
+    );
+    let mut c: ArrayVec<[u8; MAX_HASH_SIZE]> = ArrayVec::new();
+    c.extend_from_slice(randomizer);
+    Some(
+        LmotsSignature::sign(&sk, &c, message)
+            .to_binary_representation()
+            .as_slice()
+            .to_vec(),
+    )
+}
+
+/// LM-OTS public key candidate (Algorithm 4b) from signature bytes.
+pub fn lmots_candidate<H: HashChain>(
+    signature: &[u8],
+    lms_tree_identifier: &[u8],
+    lms_leaf_identifier: u32,
+    message: &[u8],
+) -> Option<Vec<u8>> {
+    let sig = InMemoryLmotsSignature::<H>::new(signature)?;
+    Some(
+        lm_ots::verify::generate_public_key_candidate(
+            &sig,
+            lms_tree_identifier,
+            lms_leaf_identifier,
+            message,
+        )
+        .as_slice()
+        .to_vec(),
+    )
+}
+
+fn key_stub<H: HashChain>(blob: &[u8]) -> Option<(ReferenceImplPrivateKey<H>, HssPrivateKey<H>)> {
+    let rfc = ReferenceImplPrivateKey::<H>::from_binary_representation(blob).ok()?;
+    let parameters = rfc.compressed_parameter.to::<H>().ok()?;
+    let used = rfc.compressed_used_leafs_indexes.to(&parameters);
+    let mut stub: HssPrivateKey<H> = Default::default();
+    for (i, parameter) in parameters.iter().enumerate() {
+        stub.private_key.push(LmsPrivateKey::new(
+            Seed::default(),
+            LmsTreeIdentifier::default(),
+            used[i],
+            *parameter.get_lmots_parameter(),
+            *parameter.get_lms_parameter(),
+        ));
+    }
+    Some((rfc, stub))
+}
+
+/// Per-level leaf indices selected by the counter of a private key blob
+/// (`CompressedUsedLeafsIndexes::to`); no tree is generated.
+pub fn leaf_digits<H: HashChain>(blob: &[u8]) -> Option<Vec<u32>> {
+    let (_, stub) = key_stub::<H>(blob)?;
+    Some(stub.private_key.iter().map(|k| k.used_leafs_index).collect())
+}
+
+/// Successor blob (`ReferenceImplPrivateKey::increment`); no tree is generated.
+pub fn increment<H: HashChain>(blob: &[u8]) -> Option<Vec<u8>> {
+    let (mut rfc, stub) = key_stub::<H>(blob)?;
+    rfc.increment(&stub);
+    Some(rfc.to_binary_representation().as_slice().to_vec())
+}
+
+/// `HssPrivateKey::get_lifetime` on the per-level state that `HssPrivateKey::from`
+/// leaves behind (every non-bottom level has handed out its current leaf); no tree
+/// is generated.
+pub fn lifetime<H: HashChain>(blob: &[u8]) -> Option<u64> {
+    let (_, mut stub) = key_stub::<H>(blob)?;
+    let levels = stub.private_key.len();
+    for i in 0..levels - 1 {
+        stub.private_key[i].use_lmots_private_key().ok()?;
+    }
+    Some(stub.get_lifetime())
+}
+
+/// Compile-time capacities and limits of this build.
+pub fn build_constants() -> Vec<(&'static str, Vec<usize>)> {
+    std::vec![
+        ("MAX_ALLOWED_HSS_LEVELS", std::vec![MAX_ALLOWED_HSS_LEVELS]),
+        ("TREE_HEIGHTS", TREE_HEIGHTS.to_vec()),
+        ("WINTERNITZ_PARAMETERS", WINTERNITZ_PARAMETERS.to_vec()),
+        ("MAX_TREE_HEIGHT", std::vec![MAX_TREE_HEIGHT]),
+        ("MIN_WINTERNITZ_PARAMETER", std::vec![MIN_WINTERNITZ_PARAMETER]),
+        ("MAX_NUM_WINTERNITZ_CHAINS", std::vec![MAX_NUM_WINTERNITZ_CHAINS]),
+        ("MAX_HSS_SIGNATURE_LENGTH", std::vec![MAX_HSS_SIGNATURE_LENGTH]),
+        ("MAX_HSS_PUBLIC_KEY_LENGTH", std::vec![MAX_HSS_PUBLIC_KEY_LENGTH]),
+        (
+            "REF_IMPL_MAX_PRIVATE_KEY_SIZE",
+            std::vec![REF_IMPL_MAX_PRIVATE_KEY_SIZE]
+        ),
+    ]
+}
